@@ -63,12 +63,14 @@ type Prog struct {
 	boundRecv   map[*ssa.Parameter]ssa.Value
 	boundMethod map[*ssa.Function]*ssa.Function // synthetic $bound wrapper -> method
 	// implOf: thin forwarding wrapper (func hasCycle(g, a, b) bool { return g.hasCycle(a, b) }) -> the function it forwards to
-	defaultOf   map[*ssa.Function]*ssa.Function
-	nilViewOf   map[*ssa.Function]*ssa.Function // predicate -> the function whose non-nil result it tests
-	inlinedInto map[string]string               // role name -> the caller it was merged into
-	fwdOf       map[*ssa.Function]*fwdInfo
-	roleNames   map[string]bool
-	implOf      map[*ssa.Function]*ssa.Function
+	defaultOf    map[*ssa.Function]*ssa.Function
+	constSets    map[*ssa.Global][]string
+	constSetsBad map[*ssa.Global]bool
+	nilViewOf    map[*ssa.Function]*ssa.Function // predicate -> the function whose non-nil result it tests
+	inlinedInto  map[string]string               // role name -> the caller it was merged into
+	fwdOf        map[*ssa.Function]*fwdInfo
+	roleNames    map[string]bool
+	implOf       map[*ssa.Function]*ssa.Function
 }
 
 type callSite struct {
